@@ -100,3 +100,22 @@ class PExit:
 
     def run(self):
         raise SystemExit(self.x)
+
+
+import labtech.cache  # noqa
+
+
+class Elsewhere(labtech.cache.PickleCache):
+    """A cache class that also finds results somewhere else."""
+    found = set()
+
+    def is_cached(self, storage, task):
+        return task.cache_key in self.found or super().is_cached(storage, task)
+
+
+@labtech.task(cache=Elsewhere())
+class PElse:
+    x: int
+
+    def run(self):
+        return self.x
